@@ -252,7 +252,13 @@ void rewrite_infinite_loops()
    {
       if (pc->Is(CT_DO))
       {
-         Chunk *start_brace   = find_start_brace(pc);
+         Chunk *start_brace = find_start_brace(pc);
+
+         if (!pc->IsSamePreproc(start_brace))
+         {
+            // a loop head in a macro: the next brace belongs to other code
+            continue;
+         }
          Chunk *end_brace     = start_brace->GetClosingParen();
          Chunk *while_keyword = end_brace->GetNextNcNnl();
 
@@ -299,7 +305,13 @@ void rewrite_infinite_loops()
                  && for_needs_rewrite(pc, desired_type)))
       {
          Chunk *start_brace = find_start_brace(pc);
-         Chunk *end_brace   = start_brace->GetClosingParen();
+
+         if (!pc->IsSamePreproc(start_brace))
+         {
+            // a loop head in a macro ('#define FOREVER for (;;)'): the next brace belongs to other code
+            continue;
+         }
+         Chunk *end_brace = start_brace->GetClosingParen();
 
          if (end_brace->IsNullChunk())
          {
